@@ -176,6 +176,21 @@ theorem C18_later_sibling_matters (pre : List Tree) (x y : Tree) (post post' : L
     | nil => simp only [List.nil_append, SimL] at hl; exact hxy hl.1
     | cons p ps ih => simp only [List.cons_append, SimL] at hl; exact ih hl.2
 
+/-- name and prefix are two compared fields, not one spelled tag: equal trees agree in each of them separately (so
+    prefix `p` + name `n` never equals no prefix + name `p:n`), and likewise in content and tail -/
+theorem C18_root_fields (i n : String) (c tl p : Option String) (a e ns : Dict) (cs : List Tree)
+    (i' n' : String) (c' tl' p' : Option String) (a' e' ns' : Dict) (cs' : List Tree)
+    (hk : KeysOK (.mk i n c tl p a e ns cs)) (hk' : KeysOK (.mk i' n' c' tl' p' a' e' ns' cs'))
+    (h : isEqual (.mk i n c tl p a e ns cs) (.mk i' n' c' tl' p' a' e' ns' cs') = true) :
+    n = n' ∧ p = p' ∧ c = c' ∧ tl = tl' := by
+  have hs := (C18_iff _ _ hk hk').mp h
+  simp only [Sim] at hs
+  exact ⟨hs.1, hs.2.2.2.1, hs.2.1, hs.2.2.1⟩
+
+/-- the boundary case on concrete nodes (kernel evaluation of the model's comparison) -/
+example : isEqual (.mk "1" "unitList" none none (some "stmml") [] [] [] []) (.mk "2" "stmml:unitList" none none none [] [] [] []) = false := by
+  decide
+
 /-- non-vacuity -/
 example : isEqual (.mk "1" "p" none none none [] [] [] [.mk "2" "x" none none none [] [] [] [], .mk "3" "y" (some "1") none none [] [] [] []])
                   (.mk "4" "p" none none none [] [] [] [.mk "5" "x" none none none [] [] [] [], .mk "6" "y" (some "2") none none [] [] [] []]) = false := by
